@@ -6,7 +6,7 @@ open Gql Gql.Validate
 /-- the `seen` map of `mayNotBeUsedDirective{Name, Line, Column}` keys -/
 abbrev KDState := List (Name × Nat × Int)
 
-def knownDirectivesStep (_ : Schema) (_ : QueryDoc) (seen : KDState) (e : Event) : StepOut KDState :=
+def knownDirectivesStep (_ : SV) (_ : QueryDoc) (seen : KDState) (e : Event) : StepOut KDState :=
   match e.p with
   | .directive d none _ _ => .ok seen [errAt (str "Unknown directive \"@" ++ d.name ++ str "\".") d.pos]
   | .directive d (some dd) _ loc =>
